@@ -39,6 +39,35 @@ def _block_family(c: Ctx) -> dict[Func, str]:
     return out
 
 
+def _probe_only(c: Ctx, g: Func, K: dict[Func, str], depth: int = 0) -> bool:
+    """g is a helper that does nothing to the state but ask rules in validation mode: it stores no attribute / element of its
+    state parameter, and every call it makes that can write the state is a terminator dispatch with `silent=True` (or a call
+    of another such helper)."""
+    cache = c.__dict__.setdefault("_probe_only", {})
+    if g in cache:
+        return cache[g]
+    cache[g] = False
+    st = K.get(g)
+    ok = st is not None and depth < 3 and g not in {reg.func for reg in c.reg.rules["block"]}
+    if ok:
+        for n in own_nodes(g.node):
+            if isinstance(n, (ast.Attribute, ast.Subscript)) and isinstance(n.ctx, (ast.Store, ast.Del)) and st in {x.id for x in ast.walk(n) if isinstance(x, ast.Name)}:
+                ok = False
+        n_probe = 0
+        for cs in c.cg.sites.get(g, []):
+            if cs.kind.startswith("dispatch:block:"):
+                if cs.node.args and isinstance(cs.node.args[-1], ast.Constant) and cs.node.args[-1].value is True:
+                    n_probe += 1
+                else:
+                    ok = False
+            elif any(h in K for h in cs.callees):
+                if not all(_probe_only(c, h, K, depth + 1) or not c.eff.site_writes_of(cs, h) for h in cs.callees):
+                    ok = False
+        ok = ok and n_probe > 0
+    cache[g] = ok
+    return ok
+
+
 def _ctx_override(c: Ctx, K: dict[Func, str]):
     def override(cs: Any, call: ast.Call, env: dict, nid: int) -> bool:
         if cs is None or not cs.callees or not any(g in K for g in cs.callees):
@@ -46,6 +75,8 @@ def _ctx_override(c: Ctx, K: dict[Func, str]):
         v = ("def", nid, "call:" + U(call.func).split(".")[-1])
         silent_probe = cs.kind.startswith("dispatch:block:") and call.args and isinstance(call.args[-1], ast.Constant) \
             and call.args[-1].value is True
+        if not silent_probe and cs.kind in ("direct", "method") and all(_probe_only(c, g, K) for g in cs.callees):
+            silent_probe = True
         for g in cs.callees:
             for (r, fld) in c.eff.site_writes_of(cs, g):
                 if g in K and (fld in CTX_FIELDS or fld in TABLES):
